@@ -48,6 +48,9 @@ type Config struct {
 	RunOptions *luagen.RunOptions
 	// Isolate runs every program in a child process (needed where the interpreter can crash or hang).
 	Isolate bool
+	// VM: every program is also compiled with the real compiler and its prototype tree is dumped into
+	// the case (VProg, case module VMX/VmCases.v), where the Coq model of the bytecode VM runs it.
+	VM bool
 }
 
 func run(cfg *Config, src string) *luagen.Outcome { return runWith(cfg, src, cfg.RunOptions) }
@@ -97,6 +100,10 @@ func runOne(cfg *Config, w *lib.Writer, seed uint64, idx int) {
 	if out.GoFail != "" {
 		coq = "CProg [] (Outcome [] (OOk []))" // a hang/escaped panic is a failure by itself
 	}
+	dumpErr := ""
+	if cfg.VM {
+		coq, dumpErr = vmCase(prog, src, out, coq)
+	}
 	c := lib.Case{
 		Input:      Input{Src: src, Seed: seed, Idx: idx, Mode: m.Name},
 		Observed:   out.Summary(),
@@ -110,6 +117,8 @@ func runOne(cfg *Config, w *lib.Writer, seed uint64, idx int) {
 	id := w.Add(c)
 	if out.GoFail != "" {
 		w.GoFail(id, out.GoFail)
+	} else if dumpErr != "" {
+		w.GoFail(id, dumpErr)
 	}
 }
 
@@ -129,12 +138,18 @@ func runCorpus(cfg *Config, w *lib.Writer) {
 		if out.GoFail != "" {
 			c.Coq = "CProg [] (Outcome [] (OOk []))"
 		}
+		dumpErr := ""
+		if cfg.VM {
+			c.Coq, dumpErr = vmCase(prog, text, out, c.Coq)
+		}
 		if cfg.KF != nil {
 			c.KF = cfg.KF(map[string]int{}, text)
 		}
 		id := w.Add(c)
 		if out.GoFail != "" {
 			w.GoFail(id, out.GoFail)
+		} else if dumpErr != "" {
+			w.GoFail(id, dumpErr)
 		}
 	}
 }
@@ -186,7 +201,11 @@ func Main(cfg *Config) {
 		return
 	}
 	a := lib.ParseArgs()
-	w, err := lib.NewWriter(a.Out, cfg.Prop, a.Tier, a.Seed, Header, "case", 30)
+	header, caseType := Header, "case"
+	if cfg.VM {
+		header, caseType = VMHeader, "vcase"
+	}
+	w, err := lib.NewWriter(a.Out, cfg.Prop, a.Tier, a.Seed, header, caseType, 30)
 	if err != nil {
 		panic(err)
 	}
